@@ -59,6 +59,10 @@ def run_cases(run, modname, prop_key_prefix='', setup_pyx=False, engine='P', sel
     cs = mod.cases()
     idxs = [i for i, c in enumerate(cs) if select is None or select(c)]
     results = pmap(_work, [(modname, i, setup_pyx) for i in idxs])
+    import os
+    if os.environ.get('VERIF_TIMING'):
+        for res in sorted(results, key=lambda r: -r['seconds'])[:25]:
+            print(f"TIMING {res['seconds']:8.1f}s {len(res['rows']):6d} rows  {res['name']}", flush=True)
     for res in results:
         if res.get('crash'):
             raise RuntimeError(f'contract case {res["name"]} crashed the checker:\n{res["crash"]}')
